@@ -324,11 +324,12 @@ def r2_episodes(ck, repo, L):
                     events[m.id] = ("set", d.value.value)
                 else:
                     raise AnalysisError(f"{site}: unrecognised definition of episode counter `{epi}`: {short(s)}")
-        dn = set(done_nodes)
+        ctrl = [b for b, lab in cfg.control_deps(n.id) if b in done_nodes and lab is True]
+        the_done = ctrl[0] if ctrl else min(done_nodes)
 
         def transfer(nid, succ, lab, st):
             d = st
-            if nid in dn and lab is True and nid == min(dn):
+            if nid == the_done and lab is True:
                 d = d + 1
             ev = events.get(nid)
             if ev:
